@@ -752,7 +752,7 @@ def worker(task: Tuple[int, int, str, int], col: common.Collector) -> None:
 
 def run(tier: str, col: common.Collector) -> None:
     nshards = common.NCPU * (2 if tier == "quick" else 8)
-    nrandom_total = 1600 if tier == "quick" else 150000
+    nrandom_total = 4800 if tier == "quick" else 150000
     per = max(1, nrandom_total // nshards)
     common.pmap(worker, [(s, nshards, tier, per) for s in range(nshards)], col)
     missing = [c for c in required_cells() if not col.counters.get(c)]
